@@ -593,7 +593,10 @@ static int unit_op (int n, char **t, int *a)
       command_giver = user_ob;
       /* odd slot sum: get_char() - the same bookkeeping in a second copy of the code */
       if (!((((a[2] + a[3]) & 1) && t[0][3] != 'r') ? get_char (&fun, 0, 2, args) : input_to (&fun, 0, 2, args)))
-        vh_out ("harness-error input_to refused");
+        {
+          if (!input_pending)
+            vh_out ("harness-error input_to refused");
+        }
       current_object = save_co;
       command_giver = save_cg;
     }
@@ -724,7 +727,7 @@ static int applicable (int n, char **t, int *a)
       return n == 5 && lpc_mode && a[2] >= 0 && a[2] <= a[3] && (size_t) a[3] < SVALUE_STRLEN (sv) && strlen (t[4]) > 0;
     }
   if (!strcmp (op, "inp") || !strcmp (op, "inpr"))
-    return n == 4 && objok (a[1]) && !objkind[a[1]] && SL (a[2]) && SL (a[3]) && !input_pending && user_ob;
+    return n == 4 && objok (a[1]) && !objkind[a[1]] && SL (a[2]) && SL (a[3]) && user_ob;	/* while one is pending: refused */
   if (!strcmp (op, "input"))
     return input_pending;
   if (!strcmp (op, "clones"))
